@@ -248,7 +248,7 @@ func c04Run(c *Ctx) {
 	cfg := c04DeclCfg()
 	cfg.ParserOpts = []flags.Options{opts}
 	d := GenDecl(c.Sub("d"), cfg)
-	if c.K%19 == 8 && c.W.Tier != "race" {
+	if inHistTail(c, 64000, 3000000) {
 		// totality and typed rejections also hold on a parser that was used before and whose model was edited
 		histCase(c, d, histAllParseKinds, []string{"parse", "help"})
 		return
@@ -410,11 +410,11 @@ func init() {
 		Cases: func(tier string) int64 {
 			switch tier {
 			case "thorough":
-				return 3000000
+				return 3000000 + 250000 // + history cases
 			case "race":
 				return 200000
 			}
-			return 64000
+			return 64000 + 5333 // + history cases
 		},
 		Run:              c04Run,
 		MinNontrivial:    500,
